@@ -328,11 +328,28 @@ def _after_build(pid, args, seed, t0, reg, known, tier, facts, facts_changed, bu
 
     ctx = Ctx(pid, tier, seed, reg, facts, driver_path, deep, reasons)
     hmod = importlib.import_module(f'harness.{pid.lower()}')
-    if args.replay:
-        case = json.load(open(args.replay))
-        res = hmod.replay(ctx, case)
-    else:
-        res = hmod.run(ctx)
+    try:
+        if args.replay:
+            case = json.load(open(args.replay))
+            res = hmod.replay(ctx, case)
+        else:
+            res = hmod.run(ctx)
+    except (MachineryError, subprocess.TimeoutExpired):
+        raise
+    except Exception as e:
+        # An exception that comes out of the code under test (innermost frames inside the
+        # repository) and that the harness did not expect is a behaviour of the implementation,
+        # not a machinery failure: the property is no longer shown to hold on this tree.  An
+        # exception raised by the harness's own code stays a machinery error (exit 2).
+        tb = traceback.extract_tb(e.__traceback__)
+        inner = [f for f in tb if os.path.realpath(f.filename).startswith(os.path.realpath(REPO) + os.sep)]
+        if not inner or os.path.realpath(tb[-1].filename).startswith(VERIF + os.sep):
+            raise
+        text = ''.join(traceback.format_exception(type(e), e, e.__traceback__))
+        res = {'violations': [], 'evaluations': 0,
+               'disagreements': [{'case': 'the harness could not complete',
+                                  'impl': f'{type(e).__name__} raised inside the code under test: {text[-1500:]}',
+                                  'model': 'n/a'}]}
 
     # ---- verdict -------------------------------------------------------------------------
     known_keys = {k['key']: k for k in known.get('known', []) if k['property'] == pid}
